@@ -52,6 +52,15 @@ def _flatten_two_gens(b):
     return False
 
 
+def _failed_then_format(b):
+    """three generations with an alteration before the second and before the third, the third in another format, then flatten"""
+    cr = [i for i, o in enumerate(b) if o["op"] == "create"]
+    if len(cr) < 3 or b[-1]["op"] not in ("flatten", "verifypl"):
+        return False
+    alt = lambda lo, hi: any(o["op"] == "alter" for o in b[lo:hi])
+    return alt(cr[0], cr[1]) and alt(cr[1], cr[2]) and b[cr[2]]["F"] != b[cr[0]]["F"]
+
+
 def _two_renames(b):
     """two or more renames between two creates (several files moved in one generation gap)"""
     seen, n = False, 0
@@ -71,7 +80,7 @@ def _rename_and_nested(b):
             and b[-1]["op"] in ("verify", "diff"))
 
 
-SELECT = {"rename_and_nested": _rename_and_nested, "rename_chain3": _rename_chain, "flatten_two_gens": _flatten_two_gens, "two_renames": _two_renames}
+SELECT = {"rename_and_nested": _rename_and_nested, "rename_chain3": _rename_chain, "flatten_two_gens": _flatten_two_gens, "failed_then_format": _failed_then_format, "two_renames": _two_renames}
 
 
 def history_campaign(out, pid, plans, pclauses, antecedent, seed, mclauses=None, line_filter=None):
@@ -478,6 +487,7 @@ generic(
     "C18", "model_checking",
     quick=[dict(scope="flat", mode="simulate", num=120, depth=11, limit=900, mc_maxgens=1, invariants=INV_C18, variants=[{"names": "plain"}, {"names": "mixed", "flatrel": True}, {"names": "unicode"}]),
            dict(scope="flatx", mode="exhaustive", maxops=5, maxgens=3, select="flatten_two_gens", mc_maxgens=3, invariants=INV_C18),
+           dict(scope="flatf", mode="exhaustive", maxops=6, maxgens=3, select="failed_then_format", limit=400, mc=False, tag="ff"),
            dict(scope="flatign", mode="simulate", num=60, depth=6, limit=400, mc_maxgens=2, invariants=INV_C18)],
     thorough=[dict(scope="flat", mode="simulate", num=1500, depth=13, mc_maxgens=3, invariants=INV_C18)],
     pclauses=["P_C18_Summary", "P_C18_VerifyPL", "P_C18_Valid", "P_C14_Frame"],
